@@ -128,6 +128,10 @@ def parse_iso8601(
             if not m.group("weeksep") and m.group("weekdaysep"):
                 raise ParserError(f"Invalid date string: {text}")
 
+            if m.group("weekdaysep") and not m.group("isoweekday"):
+                # A separator must be followed by the weekday
+                raise ParserError(f"Invalid date string: {text}")
+
             try:
                 date = _get_iso_8601_week(
                     m.group("isoyear"), m.group("isoweek"), m.group("isoweekday")
